@@ -17,9 +17,9 @@
 EXTENDS BigInt, FiniteSets, Json, IOUtils
 CONSTANT TraceFile
 Trace == ndJsonDeserialize(TraceFile)
-VARIABLES n, mass, cum, modes, den, seen, l
-vars == <<n, mass, cum, modes, den, seen, l>>
-Init == n = 0 /\ mass = <<>> /\ cum = << <<>> >> /\ modes = {} /\ den = <<1>> /\ seen = <<>> /\ l = 1
+VARIABLES n, mass, cum, modes, den, seen, exactf, l
+vars == <<n, mass, cum, modes, den, seen, exactf, l>>
+Init == n = 0 /\ mass = <<>> /\ cum = << <<>> >> /\ modes = {} /\ den = <<1>> /\ seen = <<>> /\ exactf = FALSE /\ l = 1
 
 RECURSIVE PascalRow(_)
 PascalRow(k) == IF k = 0 THEN << <<1>> >>
@@ -45,8 +45,13 @@ P18(p) == [s |-> p.s, m |-> p.m]
 ConfIs(p, x) == Cmp(SSub(SMul(P18(p), SNat(den)), SNat(Mul(x, E18))).m, Mul(E9, den)) <= 0
 \* x/den >= c - 1e-12 and x/den >= c + 1e-12, with c the exact dyadic level
 CRat(ev) == DyRat(ev.c.d)
-AtLeastLoose(x, c) == RLe(RSub(c, [n |-> SNat(<<1>>), d |-> E12]), [n |-> SNat(x), d |-> den])
-AtLeastStrict(x, c) == RLe(RAdd(c, [n |-> SNat(<<1>>), d |-> E12]), [n |-> SNat(x), d |-> den])
+\* When q = a/2^k and 2^(k n) <= 2^52 every binomial mass and every partial sum is exactly representable in float64, so the
+\* accumulation the code performs is exact and "at least c" is decided without any slack (exactf); otherwise 1e-12.
+Slack == IF exactf THEN [n |-> SZero, d |-> <<1>>] ELSE [n |-> SNat(<<1>>), d |-> E12]
+AtLeastLoose(x, c) == RLe(RSub(c, Slack), [n |-> SNat(x), d |-> den])
+AtLeastStrict(x, c) == RLe(RAdd(c, Slack), [n |-> SNat(x), d |-> den])
+RECURSIVE Log2Exact(_)
+Log2Exact(b) == IF b = 1 THEN 0 ELSE IF b % 2 = 0 THEN (LET r == Log2Exact(b \div 2) IN IF r < 0 THEN -1 ELSE r + 1) ELSE -1    \* k if b = 2^k, else -1
 One == [n |-> SNat(<<1>>), d |-> <<1>>]
 
 Valid(ev) ==
@@ -104,12 +109,13 @@ SetDist == /\ Ev("SetDist") /\ n' = Trace[l].n
               /\ modes' = {k \in 0..Trace[l].n : \A j \in 0..Trace[l].n : Cmp(m[k + 1], m[j + 1]) >= 0}
            /\ den' = Powers(Trace[l].b, Trace[l].n)[Trace[l].n + 1]
            /\ seen' = <<>>
+           /\ exactf' = (Len(Trace[l].b) = 1 /\ Log2Exact(Trace[l].b[1]) >= 0 /\ Log2Exact(Trace[l].b[1]) * Trace[l].n <= 52)
 Query == /\ Ev("Query") /\ Trace[l].n = n
          /\ Valid(Trace[l]) /\ Nested(Trace[l])
          /\ seen' = IF Trace[l].c.c = "fin" /\ Len(seen) < 40 THEN Append(seen, [c |-> C18(Trace[l]), lo |-> Trace[l].lo, hi |-> Trace[l].hi]) ELSE seen
-         /\ UNCHANGED <<n, mass, cum, modes, den>>
-QueryN == /\ Ev("QueryN") /\ ValidN(Trace[l]) /\ UNCHANGED <<n, mass, cum, modes, den, seen>>
-Reset == Ev("Reset") /\ n' = 0 /\ mass' = <<>> /\ cum' = << <<>> >> /\ modes' = {} /\ den' = <<1>> /\ seen' = <<>>
+         /\ UNCHANGED <<n, mass, cum, modes, den, exactf>>
+QueryN == /\ Ev("QueryN") /\ ValidN(Trace[l]) /\ UNCHANGED <<n, mass, cum, modes, den, seen, exactf>>
+Reset == Ev("Reset") /\ n' = 0 /\ mass' = <<>> /\ cum' = << <<>> >> /\ modes' = {} /\ den' = <<1>> /\ seen' = <<>> /\ exactf' = FALSE
 Next == SetDist \/ Query \/ QueryN \/ Reset
 Spec == Init /\ [][Next]_vars
 Accepted == TLCGet("stats").diameter - 1 = Len(Trace)
